@@ -12,7 +12,7 @@
    [read_of st now_r id]              what Store.ReadVolumeNeedle gives: Some (count, needle) or None          *)
 From Coq Require Import List NArith ZArith Bool Permutation.
 From SW Require Import model.Volume model.Compaction.
-From SW Require Import proof.CompactionInv proof.CompactionRead proof.CompactionCopy proof.CompactionMakeup proof.CompactionProofs proof.CompactionTail.
+From SW Require Import proof.CompactionInv proof.CompactionRead proof.CompactionCopy proof.CompactionMakeup proof.CompactionProofs proof.CompactionTail proof.CompactionIl.
 Import ListNotations.
 Local Open Scope N_scope.
 
@@ -31,6 +31,68 @@ Theorem c04_invisible_partial : forall g al now_s now_r ord h1 h2,
   forall id, read_of (compacted g al now_s ord h1 h2) now_r id = read_of (twin g h1 h2) now_r id.
 Proof. exact invisible_partial. Qed.
 Print Assumptions c04_invisible_partial.
+
+(* The same PER KEY and with writers running DURING the copy loop (Volume.Compact takes no lock:
+   VisitNeedle consults the live needle map while writers append).  [sched] lists, for the visit of
+   the 1st, 2nd, ... record, the writes/deletes that complete between the scanner reading that record
+   and VisitNeedle looking the key up; records appended during the scan are visited too; h2 are the
+   operations after the copy loop.  For every schedule, history, algorithm and map order, a key reads
+   the same after the commit as on the never-compacted volume provided
+     no empty payload was written TO THIS KEY                                  (finding 0, per key),
+     no needle OF THIS KEY written before the compaction is dropped by the TTL
+       filter while a read still returns it                                    (finding 1, per key),
+     the integrity check of the reload leaves the new files alone              (finding 2).
+   What happens to other keys (empty blobs, TTL drops) does not matter.  With [sched = []] the files
+   are those of the phase-structured run (c04_interleaved_nil), so this subsumes c04_invisible_partial. *)
+Theorem c04_invisible_key_interleaved : forall g al now_s now_r ord h1 sched h2 id,
+  Permutation ord (default_ord g h1 (concat sched ++ h2)) ->
+  no_empty_on id (h1 ++ concat sched ++ h2) = true ->
+  ttl_consistent_on id (g_vttl g) now_s now_r h1 = true ->
+  check_noop (check_files (compacted_files_il g al now_s ord h1 sched h2)) = true ->
+  read_of (commit (compacted_files_il g al now_s ord h1 sched h2)) now_r id =
+  read_of (twin g h1 (concat sched ++ h2)) now_r id.
+Proof. exact invisible_il_key. Qed.
+Print Assumptions c04_invisible_key_interleaved.
+
+Theorem c04_interleaved_nil : forall g al now_s ord h1 h2,
+  compacted_files_il g al now_s ord h1 [] h2 = compacted_files g al now_s ord h1 h2.
+Proof. exact compacted_files_il_nil. Qed.
+Print Assumptions c04_interleaved_nil.
+
+(* the history-wide hypotheses imply the per-key ones, for every key *)
+Theorem c04_key_hypotheses_weaker : forall (id : N) (vt : N * N) (now_s now_r : N) (h1 h : list cevent),
+  (has_empty h = false -> no_empty_on id h = true) /\
+  (ttl_consistent vt now_s now_r h1 = true -> ttl_consistent_on id vt now_s now_r h1 = true).
+Proof. exact key_hypotheses_weaker. Qed.
+Print Assumptions c04_key_hypotheses_weaker.
+
+(* ... strictly: an empty blob on key 1 (finding 0) leaves the guarantee for key 2 intact *)
+Example c04_key_narrowing :
+  has_empty (w_empty_h1 ++ []) = true /\
+  no_empty_on 2 (w_empty_h1 ++ concat [] ++ []) = true /\
+  ttl_consistent_on 2 (g_vttl g4) 1000 (1001 * sec) w_empty_h1 = true /\
+  check_noop (check_files (compacted_files_il g4 Index 1000 [] w_empty_h1 [] [])) = true /\
+  read_of (commit (compacted_files_il g4 Index 1000 [] w_empty_h1 [] [])) (1001 * sec) 2 =
+  Some (1%Z, view_of (nd 2 [7] 8 1000 (0, 0))).
+Proof. exact key_narrowing_ok. Qed.
+Print Assumptions c04_key_narrowing.
+
+(* non-vacuity of the interleaved theorem: during a scan-based compaction key 1 is overwritten after
+   its record was copied, key 2 is deleted before the scanner reaches it, key 4 is created (its record
+   is visited by the scanner AND replayed by makeupDiff: 7 records in the new .dat); all hypotheses
+   hold for every key and every key reads the same *)
+Example c04_interleaved_example :
+  let ord := default_ord g4 il_h1 (concat il_sched ++ []) in
+  let F := compacted_files_il g4 Scan 1000 ord il_h1 il_sched [] in
+  forallb (fun k => no_empty_on k (il_h1 ++ concat il_sched ++ []) &&
+                    ttl_consistent_on k (g_vttl g4) 1000 (1001 * sec) il_h1) [1; 2; 3; 4] = true /\
+  check_noop (check_files F) = true /\
+  length (f_recs F) = 7%nat /\
+  map (fun k => option_map fst (read_of (commit F) (1001 * sec) k)) [1; 2; 3; 4] = [Some 2%Z; None; Some 1%Z; Some 1%Z] /\
+  map (fun k => option_map fst (read_of (twin g4 il_h1 (concat il_sched ++ [])) (1001 * sec) k)) [1; 2; 3; 4]
+  = [Some 2%Z; None; Some 1%Z; Some 1%Z].
+Proof. exact il_example_ok. Qed.
+Print Assumptions c04_interleaved_example.
 
 (* For the algorithm the volume server uses (Compact2, index-based) and histories of writes and
    deletes, the last hypothesis always holds: the reload check changes nothing.  So for Compact2
@@ -141,3 +203,4 @@ Example c04_example : forall al,
   map (fun k => option_map fst (read_of (twin g4 ex_h1 ex_h2) (1001 * sec) k)) [1; 2; 3; 4; 5]
   = [None; Some 1%Z; None; Some 1%Z; None].
 Proof. exact example_ok. Qed.
+Print Assumptions c04_example.
